@@ -8,8 +8,10 @@
 //   - the closing brace of a body stands alone on its line (or, for one-line getters/setters, on the declaration line);
 //   - a "top-level if/switch" is an if/switch statement that is a direct child of the method body's statement list;
 //     ifs / switches inside the branches of another statement (if, else, for, while, do, try, switch case,
-//     synchronized) are nested; `else if` chains are only generated in methods where counting their members would not
-//     move the method across the threshold, and with one-line conditions; labelled ifs and bare blocks are not generated;
+//     synchronized) are nested. The `if` of an `else if` is the statement of the else branch of the if before it,
+//     i.e. nested in that if statement: `if … else if … else if …` is ONE top-level if statement however long the
+//     ladder is, and the conditions of its else-if branches are not conditions of top-level ifs. Labelled ifs and bare
+//     blocks are not generated;
 //   - a condition's '(' stands on the line of its first token and its ')' on the line of its last token, so "lines the
 //     condition spans" is the same with or without the parentheses; the `if` keyword may stand alone on the line before;
 //   - getters / setters are `getXxx` / `setXxx` with an upper-case letter after the prefix; every other method name
@@ -68,8 +70,10 @@ type Method struct {
 	NestedIfs      int   `json:"nested_ifs,omitempty"`
 	NestedSwitches int   `json:"nested_switches,omitempty"`
 	ElseIfs        int   `json:"else_ifs,omitempty"`
-	DecoyLines     []int `json:"decoy_lines,omitempty"`      // '(' lines of conditions that are not top-level if conditions
-	TallDecoys     int   `json:"tall_decoy_conds,omitempty"` // of those, conditions spanning >= 4 lines
+	TallElseIfs    int   `json:"tall_else_if_conds,omitempty"` // else-if conditions spanning >= 4 lines
+	ElseIfLines    []int `json:"else_if_lines,omitempty"`      // '(' lines of the else-if conditions (a subset of DecoyLines)
+	DecoyLines     []int `json:"decoy_lines,omitempty"`        // '(' lines of conditions that are not top-level if conditions
+	TallDecoys     int   `json:"tall_decoy_conds,omitempty"`   // of those, conditions spanning >= 4 lines
 }
 
 func (m *Method) GetterSetter() bool { return m.Role == "getter" || m.Role == "setter" }
